@@ -135,6 +135,15 @@ P = {
         "components": comp(real=["services/ftp (commands, passive sockets over simnet), services/filesystem Htfs RealPath/ChangeDir on a real temp dir"]),
         "assumptions": ["the root contains no symlinks leaving it (none are planted)", "path mapping is sequential logic; the simulator contributes interleaved sessions and transfer faults"],
     },
+    "C05": {
+        "runs": {"quick": 4000, "thorough": 400000},
+        "budget_s": {"quick": 200, "thorough": 3300},
+        "rule": "one scenario = one simulated run of one of four workloads - a segmented protocol dialogue (C04's generator, all protocols), hostile inputs to 1-3 services (C01's generator), a payload sweep of 16 connections/datagrams through echo, counterstrike or memcached (payloads cycle through all 256 single bytes, 2-byte strings, invalid UTF-8/NUL/control bytes, up to 64 KiB), or 12 UDP datagrams with such payloads through the raw listener's generic UDP handler - every event of which is checked against the invariants; distinct = distinct trace digest; non-trivial = more than one event",
+        "components": comp(real=["event package (Payload, SourceAddr/DestinationAddr, MarshalJSON), all services and the raw listener as event producers"], simulated=["simsys for the raw-listener workload"]),
+        "assumptions": ["restricted claim: MergeFrom keeps / CopyFrom overwrites and the exhaustive 2-byte enumeration of event.Payload are pure functions of their input and are NOT decided here", "a wildcard UDP socket reports :: as destination address"],
+        "stall_s": 25,
+        "rss_mb": 2500,
+    },
 }
 
 def get(prop):
